@@ -1,6 +1,6 @@
 FINDINGS = [
     dict(id="C12-differing-function-or-argparse-target-left-untouched", property="C12",
-         pattern=dict(check="sync", clause="target_equivalent_to_truth", target={"in": ["function", "argparse_function"]}, initial={"in": ["different", "diff_default", "diff_extra"]}),
+         pattern=dict(check="sync", clause="target_equivalent_to_truth", target={"in": ["function", "argparse_function"]}, initial={"in": ["different", "diff_default", "diff_extra", "diff_tail_missing", "diff_literal_short"]}),
          what="a function/method or argparse-function target that holds a different interface is reported 'unchanged' and left as it was: only class targets are really rewritten",
          site="cdd/shared/ast_utils.py:RewriteAtQuery.visit_FunctionDef (handles parameter replacement only; a whole FunctionDef at the searched location is never replaced). "
          "The obvious repair (replace the node when _location == search) makes four test_conformance tests fail, which pin the 'unchanged' outcome.",
